@@ -233,7 +233,13 @@ example : Body.cut ∈ (Body.seq (.seq (.terminals [.atom "x"]) .cut) (.terminal
     evaluation (ISO cut semantics) of the TRANSLATED body in the TRANSLATED grammar and the
     denotation both finish within the fuel, they have the same answers — bindings of all variables
     of the query, i.e. recognition, argument binding and remainder — in the same order.
-    (Evaluated on every case of the stream c17.lang by the driver: verdict SPEC-INCONSISTENT.) -/
+    (Evaluated on every case of the stream c17.lang by the driver: verdict SPEC-INCONSISTENT.)
+
+    STATUS.  As written the statement is FALSE — its side conditions are too weak in two places that
+    the driver never exercises (`C17_statement_illformed_rule_witness`: rules whose `nv` is too
+    small; `C17_wf_statement_phrase_rule_witness`: a rule named `phrase`//1) — and with the side
+    conditions repaired it is PROVED in full: `C17_translation_sound_complete_corrected` (end of
+    this file).  It is kept here unchanged. -/
 def C17_translation_sound_complete_statement : Prop :=
   ∀ (cfg : Cfg) (gr : Grammar) (q l r : Term) (b : Body) (n : Nat),
     cfg.engine = false → Body.ofTerm q = .ok b → (∀ ru ∈ gr, clash ru.name ru.args.length = false) →
@@ -440,11 +446,14 @@ theorem C17_translation_sound_complete_C (cfg : Cfg) (gr : Grammar) (q l : Term)
   intro k
   exact Agrees.strict (h.agrees q l hq n)
 
-/-- **Stage C, closures computed at run time**: `call//N` with ANY closure (a variable bound by
-    the time the call is reached, …).  In the shape of the open statement: whenever both sides
-    succeed they agree.  (A closure can evaluate to the atom `call` or `phrase`: then the SLD side
-    runs call/3 resp. phrase/3 where the denotation finds no non-terminal and gives up, so "both
-    or neither" cannot be claimed.) -/
+/-- **Stage C, closures computed at run time — and everything else**: `SettingC false` is the
+    non-strict fragment `Body.ok false`: `call//N` with ANY closure (a variable bound by the time
+    the call is reached, …), and in fact every body the reader delivers (call//1, phrase//1,
+    variable bodies, any goal in `{}`, any non-terminal name).  In the shape of the open
+    statement: whenever both sides succeed they agree.  ("Both or neither" cannot be claimed: a
+    closure can evaluate to the atom `call` or `phrase`, then the SLD side runs call/3 resp.
+    phrase/3 where the denotation finds no non-terminal and gives up; the denotation gives up on
+    goals in `{}` it does not cover; call//1 costs the SLD side one level of fuel more.) -/
 theorem C17_translation_sound_complete_C_dynamic (cfg : Cfg) (gr : Grammar) (q l : Term) (b : Body)
     (hq : Body.ofTerm q = .ok b) (h : SettingC false cfg gr b) (n : Nat) :
     let k := max (boundT q) (boundT l)
